@@ -154,6 +154,7 @@ func (*Stream).enrichJoin
   ensures dropped-rows-return-nothing: !keep ==> working == nil
   ensures kept-rows-have-no-error: keep ==> err == nil
   observe registered := get
+  before streamFieldValue on-key-is-read-from-the-callers-row: $arg0 == data
   loop 1 invariant fresh(working) && working != nil
   loop 2 invariant fresh(working) && working != nil
   loop 3 invariant fresh(working) && working != nil
